@@ -181,7 +181,11 @@ class World:
         self.api_log: list[tuple] = []
         self.reload_log: list[dict] = []
         self.logs: list[tuple] = []
+        self.live_generators = 0
+        self.generators_started = 0
         self.ended: str | None = None
+        self.early_exit = False
+        self._shutdown_requested = False
         self.exit_code: Any = None
         self.crash: str | None = None
         self.verbose = bool(os.environ.get('EXASIM_TRACE'))
@@ -355,6 +359,22 @@ class World:
 
         Configuration.reload = reload
 
+        # liveness of update generators (pending() is already false while one is half consumed)
+        from exabgp.reactor.protocol import Protocol
+
+        orig_gen = Protocol.new_update_generator
+
+        async def new_update_generator(proto_self, include_withdraw):
+            world.live_generators += 1
+            world.generators_started += 1
+            try:
+                async for item in orig_gen(proto_self, include_withdraw):
+                    yield item
+            finally:
+                world.live_generators -= 1
+
+        Protocol.new_update_generator = new_update_generator
+
         # error / critical log lines are an observation (e.g. 'peer.exception.unhandled')
         from exabgp.logger import log as exalog
 
@@ -393,6 +413,8 @@ class World:
         """what a signal handler does: set the flag the main loop polls"""
         sig = self.reactor.signal
         self.rec('signal', name=name)
+        if name == 'SHUTDOWN':
+            self._shutdown_requested = True
         sig.received = getattr(sig, name)
         sig.number = 0
 
@@ -421,6 +443,7 @@ class World:
         try:
             self.exit_code = self.loop.run_until_complete(main())
             self.ended = 'exit'
+            self.early_exit = self.loop.mono < until - 1e-6 and not self._shutdown_requested
         except SimCap as exc:
             self.ended = f'cap: {exc}'
         except SimDeadlock as exc:
@@ -463,6 +486,8 @@ class World:
 
     def quiescent(self) -> bool:
         r = self.reactor
+        if self.live_generators > 0:
+            return False
         if r.asynchronous._async:
             return False
         if r.processes._command_queue:
